@@ -1,7 +1,211 @@
 import Dagrt.Model.StepLoop
-namespace Dagrt.C01
-open Dagrt Dagrt.StepLoop
+import Dagrt.Props.C02
+/-!
+# C01 — interpreter and generated Python stepper both implement the written program
 
-theorem placeholder : allTrue [] = true := rfl
+Model: `Dagrt.StepLoop` (`Model/StepLoop.lean`).
+* `seqExec` — the reference: the builder calls carried out one after another (blocks entered iff
+  their condition was true on entry).  This is what the driver runs and what the REAL interpreter
+  and the REAL generated class are compared with on every run (events, persistent state and next
+  phase after every step).
+* `flatExec … π` — what a back end does in one step: the guarded statements the builder emitted
+  (`Builder.run`, the C02 model), executed in an order `π`.  The interpreter takes the order of its
+  execution controller (C04: a permutation that puts dependencies first), the generated code the
+  topological order of the lowering (C05: likewise), both of the same recorded `depends_on` edges.
+* `stepWith` / `runLoop` — `run_single_step` and `run` (identical in `NumpyInterpreter` and in the
+  emitted template): the next phase is advanced to the default successor before the body runs,
+  per-step variables are discarded afterwards (also after a failure), a failed step is reported
+  and not counted against `max_steps`, a phase switch replaces the successor, a raised error ends
+  the run.
+
+Proved here (all programs, all admissible orders, all stores, all function interpretations, all run
+lengths and end times): the order in which a back end executes the emitted statements does not
+matter — per step and for whole runs — so interpreter and generated code, which differ ONLY in that
+order in this model, produce the same events and the same states, and both equal program order of
+the flat statements.  `seq_eq_flat_straightline_partial`: for programs without `if_`/`else_` the
+flat program order IS the written program.  The general bridge (flat guarded statements = blocks
+entered on their entry condition; needs freshness of the `<cond>` flags, C02.fresh_*) is NOT proved
+yet; it is checked differentially on every run (the Lean reference is the block semantics, the
+real back ends execute the flat statements).
+-/
+namespace Dagrt.C01
+open Dagrt Dagrt.Sem Dagrt.Builder Dagrt.StepLoop
+
+/-- an order a back end may use: every emitted statement exactly once, dependencies first -/
+def Admissible (ops : List BOp) (π : List Nat) : Prop :=
+  π.Perm (List.range (flatStmts ops).length) ∧ LinExt (Builder.run ops).core.D π
+
+def progOrder (ops : List BOp) : List Nat := List.range (flatStmts ops).length
+
+theorem flat_is_sched (F : Funs) (ops : List BOp) (π : List Nat) (σ : Store) :
+    flatExec F (flatStmts ops) π σ = Sched.exec (C02.sem F ops) π σ := by
+  unfold flatExec Sched.exec
+  congr 1
+
+/-- **Within a step the order does not matter**: every admissible order of the emitted statements
+    gives the store — events, status, every variable — of program order. -/
+theorem body_order_irrelevant (F : Funs) (ops : List BOp) (π : List Nat) (σ : Store)
+    (h : Admissible ops π) :
+    flatExec F (flatStmts ops) π σ = flatExec F (flatStmts ops) (progOrder ops) σ := by
+  rw [flat_is_sched, flat_is_sched]
+  exact C02.any_schedule_eq_program_order ops F π σ h.1 h.2
+
+/-- two back ends whose schedulers pick admissible orders take the same step: same events, same
+    outcome (completed / failed / raised), same persistent state, same next phase -/
+theorem step_backends_agree (F : Funs) (ps : List Phase) (sched₁ sched₂ : Phase → List Nat)
+    (h₁ : ∀ ph ∈ ps, Admissible ph.ops (sched₁ ph)) (h₂ : ∀ ph ∈ ps, Admissible ph.ops (sched₂ ph))
+    (s : RunState) : stepFlat F sched₁ ps s = stepFlat F sched₂ ps s := by
+  unfold stepFlat stepWith
+  cases hf : findPhase ps s.next with
+  | none => rfl
+  | some ph =>
+    have hm : ph ∈ ps := List.mem_of_find?_eq_some hf
+    simp only
+    rw [body_order_irrelevant F ph.ops _ _ (h₁ ph hm), body_order_irrelevant F ph.ops _ _ (h₂ ph hm)]
+
+/-- … and the same whole run, for every end time, step limit and number of loop passes -/
+theorem run_backends_agree (F : Funs) (ps : List Phase) (sched₁ sched₂ : Phase → List Nat)
+    (h₁ : ∀ ph ∈ ps, Admissible ph.ops (sched₁ ph)) (h₂ : ∀ ph ∈ ps, Admissible ph.ops (sched₂ ph))
+    (tEnd : Option Int) (maxSteps : Option Nat) (fuel n : Nat) (s : RunState) :
+    runLoop (stepFlat F sched₁ ps) tEnd maxSteps fuel n s = runLoop (stepFlat F sched₂ ps) tEnd maxSteps fuel n s := by
+  have : stepFlat F sched₁ ps = stepFlat F sched₂ ps := funext (step_backends_agree F ps sched₁ sched₂ h₁ h₂)
+  rw [this]
+
+/-- program order is admissible (so "both equal program order" is an instance of the above) -/
+theorem progOrder_admissible (ops : List BOp) : Admissible ops (progOrder ops) := by
+  refine ⟨List.Perm.refl _, ?_⟩
+  intro pre j post hsplit d hd
+  have hb := C02.deps_backward ops j d hd
+  -- `range n = pre ++ j :: post` puts exactly the numbers below `j` into `pre`
+  have hn : (flatStmts ops).length = pre.length + (post.length + 1) := by
+    have : (progOrder ops).length = pre.length + (post.length + 1) := by rw [hsplit]; simp
+    unfold progOrder at this; simpa using this
+  have hlen : pre.length = j := by
+    have h1 : (progOrder ops)[pre.length]? = some j := by rw [hsplit]; simp
+    unfold progOrder at h1
+    rw [List.getElem?_range (by omega)] at h1
+    simpa using h1
+  have : d < pre.length := by omega
+  have h2 : (progOrder ops)[d]? = pre[d]? := by rw [hsplit, List.getElem?_append_left this]
+  have hdn : d < (flatStmts ops).length := by omega
+  unfold progOrder at h2
+  rw [List.getElem?_range hdn] at h2
+  exact List.mem_of_getElem? h2.symm
+
+/-- whatever the body did, a per-step variable is gone after the step -/
+theorem temporaries_discarded (body : Phase → Store → Boxed) (ps : List Phase) (s : RunState)
+    (x : Name) (hx : isPersistent x = false) (hfound : (findPhase ps s.next).isSome) :
+    (stepWith body ps s).2.2.σ x = .val .none := by
+  unfold stepWith
+  cases hf : findPhase ps s.next with
+  | none => simp [hf] at hfound
+  | some ph =>
+    simp only [finishStep]
+    split <;> simp [persist, hx]
+
+/-- the next phase is the default successor unless the step switched phase — also after a failed
+    step (the successor is stored before the body runs and is not rolled back) -/
+theorem next_phase_rule (body : Phase → Store → Boxed) (ps : List Phase) (s : RunState) (ph : Phase)
+    (hf : findPhase ps s.next = some ph) :
+    (stepWith body ps s).2.2.next =
+      match (body ph (startStep s.σ)).σ.status with
+      | .switched p => p
+      | _ => ph.next := by
+  unfold stepWith
+  simp only [hf, finishStep]
+  split <;> simp_all
+
+/-- a failed step is reported and does not count against `max_steps` -/
+theorem failed_step_not_counted (step : RunState → List Ev × Outcome × RunState) (tEnd : Option Int)
+    (maxSteps : Option Nat) (fuel n : Nat) (s s' : RunState) (evs : List Ev)
+    (hgo : stopNow s tEnd maxSteps n = false) (hs : step s = (evs, .failed, s')) :
+    runLoop step tEnd maxSteps (fuel + 1) n s = (evs, s') :: runLoop step tEnd maxSteps fuel n s' := by
+  simp [runLoop, hgo, hs]
+
+theorem completed_step_counted (step : RunState → List Ev × Outcome × RunState) (tEnd : Option Int)
+    (maxSteps : Option Nat) (fuel n : Nat) (s s' : RunState) (evs : List Ev)
+    (hgo : stopNow s tEnd maxSteps n = false) (hs : step s = (evs, .completed, s')) :
+    runLoop step tEnd maxSteps (fuel + 1) n s = (evs, s') :: runLoop step tEnd maxSteps fuel (n + 1) s' := by
+  simp [runLoop, hgo, hs]
+
+/-- a raised error ends the run after reporting the events of the step -/
+theorem raise_ends_run (step : RunState → List Ev × Outcome × RunState) (tEnd : Option Int)
+    (maxSteps : Option Nat) (fuel n : Nat) (s s' : RunState) (evs : List Ev)
+    (hgo : stopNow s tEnd maxSteps n = false) (hs : step s = (evs, .raised, s')) :
+    runLoop step tEnd maxSteps (fuel + 1) n s = [(evs, s')] := by
+  simp [runLoop, hgo, hs]
+
+/-! ### the written program vs. the flat statements: programs without `if_` / `else_` -/
+
+theorem flat_range'_eq_fold (F : Funs) : ∀ (l pre : List Stmt) (σ : Store),
+    flatExec F (pre ++ l) (List.range' pre.length l.length) σ = l.foldl (fun σ s => exec F s σ) σ := by
+  intro l
+  induction l with
+  | nil => intro pre σ; simp [flatExec]
+  | cons s l ih =>
+    intro pre σ
+    have h := ih (pre ++ [s]) (exec F s σ)
+    simp only [List.length_append, List.length_singleton, List.append_assoc, List.singleton_append] at h
+    simp only [List.length_cons, List.range'_succ, List.foldl_cons]
+    rw [← h]
+    unfold flatExec
+    simp only [List.foldl_cons]
+    have : (pre ++ s :: l)[pre.length]? = some s := by simp
+    rw [this]
+    rfl
+
+theorem flat_range_eq_fold (F : Funs) (l : List Stmt) (σ : Store) :
+    flatExec F l (List.range l.length) σ = l.foldl (fun σ s => exec F s σ) σ := by
+  have := flat_range'_eq_fold F l [] σ
+  simpa [List.range_eq_range'] using this
+
+theorem run_straight (ks : List Kind) : ∀ (st : BState), st.condStack = [] → st.failed = none →
+    let st' := (ks.map BOp.stmt).foldl (fun st op => if st.failed.isSome then st else step st op) st
+    st'.out.map (·.1) = st.out.map (·.1) ++ ks.map (fun k => (⟨.const (.bool true), k⟩ : Stmt)) := by
+  induction ks with
+  | nil => intro st _ _; simp
+  | cons k ks ih =>
+    intro st hc hf
+    simp only [List.map_cons, List.foldl_cons, hf, Option.isSome_none, Bool.false_eq_true, if_false]
+    have h1 : (step st (.stmt k)).condStack = [] := by simp [step, addStatement, hc]
+    have h2 : (step st (.stmt k)).failed = none := by simp [step, addStatement, hf]
+    have := ih (step st (.stmt k)) h1 h2
+    simp only at this
+    rw [this]
+    simp [step, addStatement, hc, condOf]
+
+theorem seq_straight (F : Funs) (ks : List Kind) : ∀ (s : SeqState), s.stack = [] → s.failed = false →
+    ((ks.map BOp.stmt).foldl (fun s op => bif s.failed then s else seqStep F s op) s).σ =
+      ks.foldl (fun σ k => exec F ⟨.const (.bool true), k⟩ σ) s.σ := by
+  induction ks with
+  | nil => intro s _ _; rfl
+  | cons k ks ih =>
+    intro s hs hf
+    simp only [List.map_cons, List.foldl_cons, hf, cond_false]
+    have h1 : (seqStep F s (.stmt k)).stack = [] := by simp [seqStep, hs, allTrue]
+    have h2 : (seqStep F s (.stmt k)).failed = false := by simp [seqStep, hs, allTrue, hf]
+    rw [ih _ h1 h2]
+    simp [seqStep, hs, allTrue, exec]
+
+/-- for a program that consists of statements only (no `if_` / `else_`), executing the emitted
+    flat statements in program order IS carrying out the builder calls one after another — with
+    `body_order_irrelevant`: every admissible order of a back end implements the written program -/
+theorem seq_eq_flat_straightline_partial (F : Funs) (ks : List Kind) (σ : Store) :
+    (seqExec F (ks.map BOp.stmt) σ).σ =
+      flatExec F (flatStmts (ks.map BOp.stmt)) (progOrder (ks.map BOp.stmt)) σ := by
+  unfold progOrder
+  rw [flat_range_eq_fold]
+  unfold seqExec
+  rw [seq_straight F ks _ rfl rfl]
+  have := run_straight ks BState.init rfl rfl
+  simp only at this
+  unfold flatStmts Builder.run
+  rw [this]
+  simp [BState.init, List.foldl_map]
+
+theorem backend_implements_straightline_partial (F : Funs) (ks : List Kind) (π : List Nat) (σ : Store)
+    (h : Admissible (ks.map BOp.stmt) π) :
+    flatExec F (flatStmts (ks.map BOp.stmt)) π σ = (seqExec F (ks.map BOp.stmt) σ).σ := by
+  rw [body_order_irrelevant F _ π σ h, seq_eq_flat_straightline_partial]
 
 end Dagrt.C01
